@@ -481,8 +481,14 @@ func (w *world) pump(a action) {
 		t, _ := d.NewTarget()
 		pa, _ := t.NewPromisedAnswer()
 		pa.SetQuestionId(uint32(e["q"].(int)))
-		ops, _ := pa.NewTransform(1)
-		ops.At(0).SetGetPointerField(0)
+		if e["q"].(int)%2 == 1 {
+			ops, _ := pa.NewTransform(2)
+			ops.At(0).SetNoop()
+			ops.At(1).SetGetPointerField(0)
+		} else {
+			ops, _ := pa.NewTransform(1)
+			ops.At(0).SetGetPointerField(0)
+		}
 		w.deliver(msg, J{"m": "disembargo", "kind": "senderLoopback", "n": 7, "tgt": "ans", "on": e["q"], "path": "f0"})
 	case "disembargo":
 		if e["kind"] == "senderLoopback" {
@@ -981,10 +987,29 @@ func (w *world) step(a action, closed *bool) {
 		if a.On >= 0 {
 			pa, _ := t.NewPromisedAnswer()
 			pa.SetQuestionId(uint32(a.On))
+			// rpc.capnp: a noop op leaves the pointer where it is; the peer spells the same two paths (root, field 0)
+			// in three ways each, chosen by the call's tag, and the expected behaviour does not depend on the spelling
+			spell := (a.Tag + a.Q) % 3
 			if a.Kind != "root" {
-				ops, _ := pa.NewTransform(1)
-				ops.At(0).SetGetPointerField(0)
+				switch spell {
+				case 0:
+					ops, _ := pa.NewTransform(1)
+					ops.At(0).SetGetPointerField(0)
+				case 1:
+					ops, _ := pa.NewTransform(2)
+					ops.At(0).SetNoop()
+					ops.At(1).SetGetPointerField(0)
+				default:
+					ops, _ := pa.NewTransform(2)
+					ops.At(0).SetGetPointerField(0)
+					ops.At(1).SetNoop()
+				}
 				e["path"] = "f0"
+			} else if spell > 0 {
+				ops, _ := pa.NewTransform(int32(spell))
+				for i := 0; i < spell; i++ {
+					ops.At(i).SetNoop()
+				}
 			}
 			e["tgt"], e["on"] = "ans", a.On
 		} else {
